@@ -76,6 +76,8 @@ class Ref:
         self.cls_depth = 0
         self.cap_stack = []
         self.ctx_stack = []  # ("obj", o) / ("cls",) in entry order
+        self.n_exits = 0
+        self.n_ops = 0
         self.cap_default = True
         self.handles = []  # dict(obj, path, kinds, attached)
         for r in cfg.objects:
@@ -96,6 +98,10 @@ class Ref:
 
     def res_buffered(self, r):
         return any(self.obj_buffered(o) for o, rr in enumerate(self.obj_res) if rr == r)
+
+    def res_all_buffered(self, r):
+        objs = [o for o, rr in enumerate(self.obj_res) if rr == r]
+        return bool(objs) and all(self.obj_buffered(o) for o in objs)
 
     def logical(self, r):
         if self.in_buf[r]:
@@ -244,6 +250,7 @@ class Ref:
         if t == "exit":
             o = ev[1]
             self.obj_depth[o] -= 1
+            self.n_exits += 1
             if ("obj", o) in self.ctx_stack:
                 i = len(self.ctx_stack) - 1 - self.ctx_stack[::-1].index(("obj", o))
                 del self.ctx_stack[i]
@@ -270,6 +277,7 @@ class Ref:
             return None, info
         if t == "exit_cls":
             self.cls_depth -= 1
+            self.n_exits += 1
             self.cap_stack.pop()
             if ("cls",) in self.ctx_stack:
                 i = len(self.ctx_stack) - 1 - self.ctx_stack[::-1].index(("cls",))
@@ -296,6 +304,9 @@ class Ref:
 
     def _detach_for(self, o, path, op, args, node_after):
         a = [model.ref_value(x) for x in args]
+        if op == "setpath":
+            self.detach_under(o, tuple(path) + tuple(a[0]) + (a[1],), strict=False)
+            return
         if op in ("clear", "reset", "reverse", "insert", "remove", "iadd", "extend", "append"):
             if op in ("append", "extend", "iadd"):
                 return
@@ -492,7 +503,7 @@ def execute(cfg, history, oracles, hooks=None, keep_world=False):
             last = i == len(full) - 1
             snaps = None
             if last and "nowrite" in oracles:
-                snaps = [(world.resources[r].snapshot() if ref.res_buffered(r) else _NOSNAP)
+                snaps = [(world.resources[r].snapshot() if ref.res_all_buffered(r) else _NOSNAP)
                          for r in range(len(world.resources))]
                 was_default = ref.cap_default
             if hooks is not None and hasattr(hooks, "before_event"):
@@ -536,8 +547,8 @@ def execute(cfg, history, oracles, hooks=None, keep_world=False):
                             v.append(("resource", "after %r: %s" % (ev, why)))
                 if snaps is not None and was_default and ref.cap_default:
                     for r, s0 in enumerate(snaps):
-                        if s0 is _NOSNAP or not ref.res_buffered(r):
-                            continue
+                        if s0 is _NOSNAP or not ref.res_all_buffered(r):
+                            continue  # some object on r left its outermost context: it may flush
                         if ev[0] == "ext" and ev[1] == r:
                             continue
                         now = world.resources[r].snapshot()
